@@ -60,6 +60,10 @@ type Config struct {
 	PCTPoints      []int64 // global yield indices at which the running task is demoted
 
 	StepBudget int64 // per call
+
+	// IntrudePermille: probability that a registered interfering call runs between a
+	// pool Put and the caller's next instruction (single-task engines only).
+	IntrudePermille int
 }
 
 // Violation is a monitor finding raised by the runtime itself.
@@ -91,6 +95,7 @@ type Stats struct {
 	Hangs              int64
 	TapeClamped        int64
 	TapeExhausted      int64
+	Intrusions         int64
 }
 
 // Event is one record of the trace ring.
@@ -161,6 +166,10 @@ type World struct {
 	callSerial uint64
 	rotCtr     uint64
 	poolCount  uint32
+
+	// Intruder is the interfering call (set by the harness); intruding is true while it runs.
+	Intruder  func()
+	intruding bool
 }
 
 // W is the installed world (nil: shims degrade to plain deterministic behaviour).
